@@ -83,6 +83,7 @@ func (o *objectGoSliceReflect) setOwnStr(name unistring.String, val Value, throw
 
 func (o *objectGoSliceReflect) defineOwnPropertyStr(name unistring.String, descr PropertyDescriptor, throw bool) bool {
 	if name == "length" {
+		o.updateLen()
 		return o.val.runtime.defineArrayLength(&o.lengthProp, descr, o.putLength, throw)
 	}
 	return o.objectGoArrayReflect.defineOwnPropertyStr(name, descr, throw)
